@@ -4,6 +4,7 @@ from jaqalpaq.core.algorithm.visitor import Visitor
 from jaqalpaq.core.circuit import Circuit
 from jaqalpaq.core.block import BlockStatement, LoopStatement
 from jaqalpaq.core.gatedef import GateDefinition
+from jaqalpaq.core.gate import GateStatement
 from jaqalpaq.core.macro import Macro
 
 
@@ -63,6 +64,9 @@ class SubcircuitExpander(Visitor):
 
     def visit_Circuit(self, circuit):
         new_circuit = Circuit(native_gates=circuit.native_gates)
+        # Macros are visited in definition order, so that calls (in later
+        # macros and in the body) can refer to the rebuilt definitions.
+        self.macros = new_circuit.macros
         for name, macro in circuit.macros.items():
             new_circuit.macros[name] = self.visit(macro)
         new_circuit.constants.update(circuit.constants)
@@ -74,6 +78,13 @@ class SubcircuitExpander(Visitor):
     def visit_Macro(self, macro):
         """Subcircuit blocks in a macro body are expanded like any other."""
         return Macro(macro.name, macro.parameters, self.visit(macro.body))
+
+    def visit_GateStatement(self, gate):
+        """Calls of a rebuilt macro refer to the rebuilt definition."""
+        macro = getattr(self, "macros", {}).get(gate.name)
+        if macro is not None and macro is not gate.gate_def:
+            return GateStatement(macro, gate.parameters)
+        return gate
 
     def visit_LoopStatement(self, loop):
         return LoopStatement(loop.iterations, self.visit(loop.statements))
